@@ -168,6 +168,11 @@ def crash_class(r):
 
 def judge_for(prop, cls):
     def judge(rec):
+        if prop == "C06":
+            if cls == "worse-than-start":
+                return rec.get("outcome") == "completed" and rec.get("f_ret_true") is not None and rec["f_ret_true"] > rec["f_first"]
+            if cls.startswith("run-failed:"):
+                return rec.get("outcome") != "completed"
         if cls.startswith("crash:"):
             return rec.get("outcome") in ("exception", "ctor_crash") and crash_class(rec) == cls
         return any(v["prop"] == prop and v["cls"] == cls for v in rec.get("violations", []))
